@@ -23,6 +23,7 @@
 //!     12 ov_max_qos       v5 `with`: n >= 1 `max_qos = n-1`
 //!     13 ov_alias_max     v5 `with`: n >= 1 `topic_alias_max = n-1`
 //!     14 ov_server_ka     v5 `with`: n >= 1 `server_keepalive_sec = Some(n-1)`
+//!     15 prebuffer        1 = the first piece of the first bytes is in the read buffer before the server is called
 //!   field 1  cut positions inside the first bytes (increasing)
 //!   field 2  first bytes; written piece by piece, settle() after every piece
 //!   fields 3.. operations after the handshake service has answered
@@ -168,15 +169,23 @@ fn classify(res: &Result<(), MqttError<HErr>>) -> (u64, u64) {
     }
 }
 
-async fn start<F>(factory: F, cfg: SharedCfg, log: Rc<RefCell<Log>>) -> IoTest
+async fn start<F>(factory: F, cfg: SharedCfg, log: Rc<RefCell<Log>>, pre: &[u8]) -> IoTest
 where
     F: ServiceFactory<IoBoxed, SharedCfg, Response = (), Error = MqttError<HErr>> + 'static,
     F::InitError: std::fmt::Debug,
 {
     let (client, server) = IoTest::create();
     client.remote_buffer_cap(1 << 20);
+    if !pre.is_empty() {
+        // bytes that are already there when the connection is handed to the server (a TLS / proxy stage in
+        // front, a busy worker): the io read task runs before the service is called
+        client.write(pre);
+    }
     let io: IoBoxed = Io::new(server, cfg.clone()).into();
     let svc = Pipeline::new(factory.create(cfg).await.expect("service"));
+    if !pre.is_empty() {
+        settle().await;
+    }
     ntex::rt::spawn(async move {
         let res = svc.call(io).await;
         let (rk, ptype) = classify(&res);
@@ -385,19 +394,26 @@ pub async fn run_case(c: &Fields) -> Fields {
         .set_max_size(cx.arg(7) as u32);
     let scfg = conn::shared_cfg("HS", mcfg);
 
+    // configuration field 15 = 1: the first piece is already buffered when the server gets the connection
+    let pre_len = if cx.arg(15) == 1 {
+        cuts.first().map_or(first.len(), |c| (*c as usize).min(first.len()))
+    } else {
+        0
+    };
+    let pre = first[..pre_len].to_vec();
     let peer = match cx.arg(0) {
-        3 => start(v3_server!(cx.clone()), scfg, log.clone()).await,
-        5 => start(v5_server!(cx.clone()), scfg, log.clone()).await,
+        3 => start(v3_server!(cx.clone()), scfg, log.clone(), &pre).await,
+        5 => start(v5_server!(cx.clone()), scfg, log.clone(), &pre).await,
         _ => {
             let srv = ntex_mqtt::MqttServer::<_, _, HErr, ()>::new()
                 .v3(v3_server!(cx.clone()))
                 .v5(v5_server!(cx.clone()));
-            start(srv, scfg, log.clone()).await
+            start(srv, scfg, log.clone(), &pre).await
         }
     };
 
     // the first bytes, in pieces
-    let mut pos = 0usize;
+    let mut pos = pre_len;
     for cut in cuts.iter().map(|c| *c as usize).chain(std::iter::once(first.len())) {
         let cut = cut.min(first.len());
         if cut > pos {
